@@ -478,6 +478,26 @@ func (c *Ctx) isLoopIndex(idx ssa.Value, l *scanLoop) bool {
 		}
 		return idx == ssa.Value(l.IndexPhi)
 	}
+	// a second counter kept in step with the loop's own (the element index
+	// next to a count of what remains)
+	if ip, isPhi := idx.(*ssa.Phi); isPhi && ip != l.IndexPhi && l.IndexPhi != nil {
+		same := func(a, b ssa.Value) bool {
+			ca, ok1 := a.(*ssa.Call)
+			cb, ok2 := b.(*ssa.Call)
+			if ok1 && ok2 && isBuiltin(&ca.Call, "len") && isBuiltin(&cb.Call, "len") {
+				ia, ib := c.listID(ca.Call.Args[0]), c.listID(cb.Call.Args[0])
+				return ia != nil && ia == ib
+			}
+			return false
+		}
+		if d, ok := lockstep(ip, l.IndexPhi, same); ok {
+			if l.FromLen {
+				return d == -1
+			}
+			return d == 0
+		}
+		return false
+	}
 	if l.FromLen {
 		bo, ok := idx.(*ssa.BinOp)
 		if !ok || bo.Op != token.SUB || bo.X != ssa.Value(l.IndexPhi) {
@@ -1052,22 +1072,32 @@ func (c *Ctx) indexedFill(ms *ssa.MakeSlice) ([]rootAdd, bool) {
 	}
 	var stores []*ssa.Store
 	var idxs []ssa.Value
-	for _, r := range *ms.Referrers() {
-		ia, ok := r.(*ssa.IndexAddr)
-		if !ok {
-			continue
-		}
-		for _, rr := range *ia.Referrers() {
-			if st, ok := rr.(*ssa.Store); ok && st.Addr == ssa.Value(ia) {
-				stores = append(stores, st)
-				idxs = append(idxs, ia.Index)
+	var lows []ssa.Value // for a store through `s[low:]`: that low bound
+	var collect func(v ssa.Value, low ssa.Value)
+	collect = func(v ssa.Value, low ssa.Value) {
+		for _, r := range *v.Referrers() {
+			switch x := r.(type) {
+			case *ssa.IndexAddr:
+				for _, rr := range *x.Referrers() {
+					if st, ok := rr.(*ssa.Store); ok && st.Addr == ssa.Value(x) {
+						stores = append(stores, st)
+						idxs = append(idxs, x.Index)
+						lows = append(lows, low)
+					}
+				}
+			case *ssa.Slice:
+				// tail := s[p:] ; tail[j] = … fills s[p+j]
+				if low == nil && x.Low != nil && x.High == nil && x.Max == nil {
+					collect(x, x.Low)
+				}
 			}
 		}
 	}
+	collect(ms, nil)
 	if !isSumLen {
 		// make([]T, p, cap) whose p elements are all assigned by one index
 		// loop over [0,p) (further elements are appended)
-		if len(stores) == 1 {
+		if len(stores) == 1 && lows[0] == nil {
 			if n1, ok := c.loopCounterBound(f, idxs[0]); ok && sameLen(n1, ms.Len) {
 				return []rootAdd{{stores[0], stores[0].Val}}, true
 			}
@@ -1083,8 +1113,20 @@ func (c *Ctx) indexedFill(ms *ssa.MakeSlice) ([]rootAdd, bool) {
 			b := 1 - a
 			// stores[a] fills [0,p), stores[b] fills [p,p+q)
 			n1, ok1 := c.loopCounterBound(f, idxs[a])
+			if !ok1 || !sameLen(n1, p) || lows[a] != nil {
+				continue
+			}
+			if lows[b] != nil {
+				// through the tail s[p:]: index j over [0,q)
+				if sameLen(lows[b], p) {
+					if n2, ok2 := c.loopCounterBound(f, idxs[b]); ok2 && sameLen(n2, q) {
+						return []rootAdd{{stores[a], stores[a].Val}, {stores[b], stores[b].Val}}, true
+					}
+				}
+				continue
+			}
 			sum, isSum := idxs[b].(*ssa.BinOp)
-			if !ok1 || !sameLen(n1, p) || !isSum || sum.Op != token.ADD {
+			if !isSum || sum.Op != token.ADD {
 				continue
 			}
 			for _, tj := range [][2]ssa.Value{{sum.X, sum.Y}, {sum.Y, sum.X}} {
